@@ -334,6 +334,15 @@ impl Context {
                 fileids.insert(fileid);
             }
         }
+        // Merging drops tombstones, so every file older than a merged file has to be merged
+        // as well. Otherwise a value shadowed by a dropped tombstone reappears after a restart.
+        if let Some(&newest) = fileids.iter().next_back() {
+            for entry in self.stats.iter() {
+                if *entry.key() < newest {
+                    fileids.insert(*entry.key());
+                }
+            }
+        }
         Ok(fileids)
     }
 }
